@@ -199,9 +199,10 @@ class Commute(Relation):
             'theta': G.angles(False),
             'pivot': st.tuples(G.coord1('near'), G.coord1('near')).map(list),
             'wcs': W.wcs_specs(scale=(0.01 / 3600, 0.01)),
-            'cmeta': st.sampled_from([None, {'include': False},
+            'cmeta': st.sampled_from([None, {'include': False}, {},
                                       {'text': 'cmp', 'include': True}]),
-            'cvisual': st.sampled_from([None, {'color': 'green'}]),
+            'cvisual': st.sampled_from([None, {'color': 'green'}, {}]),
+            'inc1': st.sampled_from([None, None, False, True]),
             'region': _cluster(G.compound(leaf, max_depth=2,
                                           with_meta=False)),
             'query': Q.query_strategy(12),
@@ -216,6 +217,8 @@ class Commute(Relation):
         cr = sp['wcs']['crpix']
         rs = _shift_to(rs, cr)
         a, b = S.build(rs['r1']), S.build(rs['r2'])
+        if sp.get('inc1') is not None:
+            a.meta['include'] = sp['inc1']      # include flag on operand 1
         op = S.OPS[rs['op']]
         kw = {}
         if sp['cmeta'] is not None:
